@@ -215,13 +215,15 @@ func (e *C15) one(ctx *core.Ctx) {
 					origin = "kept-from-previous-list"
 				}
 			}
+			// the controller re-runs its selection only when the list length differs from the wanted count
+			selectionRan := fmt.Sprint(len(prevList) != wantNow)
 			switch {
 			case !ok:
-				fail("C15.valid", map[string]string{"cause": "node-does-not-exist", "origin": origin})
+				fail("C15.valid", map[string]string{"cause": "node-does-not-exist", "origin": origin, "selectionRan": selectionRan})
 			case !ni.Fit:
-				fail("C15.valid", map[string]string{"cause": "node-not-eligible", "origin": origin})
+				fail("C15.valid", map[string]string{"cause": "node-not-eligible", "origin": origin, "selectionRan": selectionRan})
 			case useSel && !ni.Sel:
-				fail("C15.valid", map[string]string{"cause": "node-does-not-match-canary-selector", "origin": origin})
+				fail("C15.valid", map[string]string{"cause": "node-does-not-match-canary-selector", "origin": origin, "selectionRan": selectionRan})
 			}
 		}
 		for _, p := range prevList {
